@@ -34,6 +34,7 @@ class Chooser:
     """
 
     def __init__(self, seed=0, replay=None):
+        self.seed = seed
         self.rng = random.Random(seed)
         self.replay = replay
         self.pos = 0
